@@ -224,6 +224,11 @@ bool ProcessExecutor::handleRead(int rpipe, unsigned int &result, const std::str
     unsigned int len = 0;
     bytes_to_read = sizeof(len);
     bytes_read = read(rpipe, &len, bytes_to_read);
+    if (bytes_read == 0) {
+        // the forked process died in the middle of a message - treat it like a missing pipe
+        ++result;
+        return false;
+    }
     if (bytes_read <= 0) {
         const int err = errno;
         std::cerr << "#### ThreadExecutor::handleRead(" << filename << ") error (len) for type " << int(type) << ": " << std::strerror(err) << std::endl;
@@ -240,6 +245,11 @@ bool ProcessExecutor::handleRead(int rpipe, unsigned int &result, const std::str
         bytes_to_read = len;
         do {
             bytes_read = read(rpipe, data_start, bytes_to_read);
+            if (bytes_read == 0) {
+                // the forked process died in the middle of a message - treat it like a missing pipe
+                ++result;
+                return false;
+            }
             if (bytes_read <= 0) {
                 const int err = errno;
                 std::cerr << "#### ThreadExecutor::handleRead(" << filename << ") error (buf) for type" << int(type) << ": " << std::strerror(err) << std::endl;
